@@ -157,83 +157,202 @@ func genCss(files []*srcFile) {
 	wantSplitValues := "func splitValues(value string) []string {\n\tvalues := strings.Split(value, \",\")\n\tnewValues := []string{}\n\tfor _, strippedValue := range values {\n\t\tnewValues = append(newValues, strings.ToLower(strings.TrimSpace(strippedValue)))\n\t}\n\treturn newValues\n}"
 	wantIn := "func in(value []string, arr []string) bool {\n\tfor _, i := range value {\n\t\tfoundString := false\n\t\tfor _, j := range arr {\n\t\t\tif j == i {\n\t\t\t\tfoundString = true\n\t\t\t}\n\t\t}\n\t\tif !foundString {\n\t\t\treturn false\n\t\t}\n\t}\n\treturn true\n}"
 	helpersOK := nodeText(cssFile, findFuncIn(cssFile, "splitValues")) == wantSplitValues && nodeText(cssFile, findFuncIn(cssFile, "in")) == wantIn
-	type kwh struct {
-		fn    string
-		rx    []string
+	// package-level keyword lists by variable name (colorValues)
+	pkgLists := map[string][]string{}
+	for _, d := range cssFile.file.Decls {
+		gd, ok := d.(*ast.GenDecl)
+		if !ok || gd.Tok != token.VAR {
+			continue
+		}
+		for _, sp := range gd.Specs {
+			vs := sp.(*ast.ValueSpec)
+			for i, name := range vs.Names {
+				if i >= len(vs.Values) {
+					continue
+				}
+				if cl, ok := vs.Values[i].(*ast.CompositeLit); ok {
+					if at, ok := cl.Type.(*ast.ArrayType); ok && at.Len == nil && isIdent(at.Elt, "string") {
+						var ws []string
+						good := true
+						for _, e := range cl.Elts {
+							w, ok := strLit(e)
+							good = good && ok
+							ws = append(ws, w)
+						}
+						if good {
+							pkgLists[name.Name] = ws
+						}
+					}
+				}
+			}
+		}
+	}
+	// a handler body that is a disjunction of conditions on the value:
+	//   values := []string{..} | splitVals := splitValues(value) | splitVals := strings.Split(value, " ")   (bindings)
+	//   if COND { return true }   ...   return COND
+	//   COND ::= R.MatchString(value) | OtherHandler(value) | in(splitVals, values) | in(splitVals, colorValues)
+	type hcond struct {
+		kind  string // rx, call, in, insp
+		name  string
 		words []string
 	}
-	var kwHandlers []kwh
+	type hdef struct {
+		fn    string
+		conds []hcond
+	}
+	parseDef := func(fd *ast.FuncDecl) (hdef, bool) {
+		def := hdef{fn: fd.Name.Name}
+		var values []string
+		haveValues := false
+		split := "" // "", "sv", "sp"
+		cond := func(e ast.Expr) (hcond, bool) {
+			ce, ok := e.(*ast.CallExpr)
+			if !ok {
+				return hcond{}, false
+			}
+			if sel, ok := ce.Fun.(*ast.SelectorExpr); ok {
+				id, ok := sel.X.(*ast.Ident)
+				if ok && regexVars[id.Name] && sel.Sel.Name == "MatchString" && len(ce.Args) == 1 && isIdent(ce.Args[0], "value") {
+					return hcond{kind: "rx", name: id.Name}, true
+				}
+				return hcond{}, false
+			}
+			id, ok := ce.Fun.(*ast.Ident)
+			if !ok {
+				return hcond{}, false
+			}
+			if id.Name == "in" && len(ce.Args) == 2 && isIdent(ce.Args[0], "splitVals") && split != "" {
+				var ws []string
+				if isIdent(ce.Args[1], "values") && haveValues {
+					ws = values
+				} else if a, ok := ce.Args[1].(*ast.Ident); ok && pkgLists[a.Name] != nil {
+					ws = pkgLists[a.Name]
+				} else {
+					return hcond{}, false
+				}
+				k := "in"
+				if split == "sp" {
+					k = "insp"
+				}
+				return hcond{kind: k, words: ws}, true
+			}
+			if handlerFuncs[id.Name] && id.Name != fd.Name.Name && len(ce.Args) == 1 && isIdent(ce.Args[0], "value") && strings.HasSuffix(id.Name, "Handler") {
+				return hcond{kind: "call", name: id.Name}, true
+			}
+			return hcond{}, false
+		}
+		for si, st := range fd.Body.List {
+			last := si == len(fd.Body.List)-1
+			switch x := st.(type) {
+			case *ast.AssignStmt:
+				if last || x.Tok != token.DEFINE || len(x.Lhs) != 1 || len(x.Rhs) != 1 {
+					return def, false
+				}
+				switch {
+				case isIdent(x.Lhs[0], "values") && !haveValues:
+					cl, ok := x.Rhs[0].(*ast.CompositeLit)
+					if !ok {
+						return def, false
+					}
+					at, ok := cl.Type.(*ast.ArrayType)
+					if !ok || at.Len != nil || !isIdent(at.Elt, "string") {
+						return def, false
+					}
+					for _, e := range cl.Elts {
+						w, ok := strLit(e)
+						if !ok {
+							return def, false
+						}
+						values = append(values, w)
+					}
+					haveValues = true
+				case isIdent(x.Lhs[0], "splitVals") && split == "":
+					ce, ok := x.Rhs[0].(*ast.CallExpr)
+					if !ok {
+						return def, false
+					}
+					if isIdent(ce.Fun, "splitValues") && len(ce.Args) == 1 && isIdent(ce.Args[0], "value") {
+						split = "sv"
+					} else if sel, ok := ce.Fun.(*ast.SelectorExpr); ok && isIdent(sel.X, "strings") && sel.Sel.Name == "Split" && len(ce.Args) == 2 && isIdent(ce.Args[0], "value") {
+						if sep, ok := strLit(ce.Args[1]); ok && sep == " " {
+							split = "sp"
+						} else {
+							return def, false
+						}
+					} else {
+						return def, false
+					}
+				default:
+					return def, false
+				}
+			case *ast.IfStmt:
+				if last || x.Init != nil || x.Else != nil || len(x.Body.List) != 1 {
+					return def, false
+				}
+				rs, ok := x.Body.List[0].(*ast.ReturnStmt)
+				if !ok || len(rs.Results) != 1 || !isIdent(rs.Results[0], "true") {
+					return def, false
+				}
+				c, ok := cond(x.Cond)
+				if !ok {
+					return def, false
+				}
+				def.conds = append(def.conds, c)
+			case *ast.ReturnStmt:
+				if !last || len(x.Results) != 1 {
+					return def, false
+				}
+				c, ok := cond(x.Results[0])
+				if !ok {
+					return def, false
+				}
+				def.conds = append(def.conds, c)
+			default:
+				return def, false
+			}
+		}
+		return def, len(def.conds) > 0
+	}
+	var hdefs []hdef
 	if helpersOK {
+		cand := map[string]hdef{}
+		var order []string
 		for _, d := range cssFile.file.Decls {
 			fd, ok := d.(*ast.FuncDecl)
 			if !ok || fd.Body == nil || fd.Recv != nil || len(fd.Type.Params.List) != 1 || len(fd.Type.Params.List[0].Names) != 1 || fd.Type.Params.List[0].Names[0].Name != "value" {
 				continue
 			}
-			st := fd.Body.List
-			var rx []string
-			for len(st) > 0 {
-				is, ok := st[0].(*ast.IfStmt)
-				if !ok || is.Init != nil || is.Else != nil || len(is.Body.List) != 1 {
-					break
+			if def, ok := parseDef(fd); ok {
+				cand[def.fn] = def
+				order = append(order, def.fn)
+			}
+		}
+		// dependency order: a definition is emitted once everything it calls has been; what calls an unrecognised handler is dropped
+		emitted := map[string]bool{}
+		for changed := true; changed; {
+			changed = false
+			for _, fn := range order {
+				if emitted[fn] {
+					continue
 				}
-				ce, ok := is.Cond.(*ast.CallExpr)
-				rs, ok2 := is.Body.List[0].(*ast.ReturnStmt)
-				if !ok || !ok2 || len(rs.Results) != 1 || !isIdent(rs.Results[0], "true") || len(ce.Args) != 1 || !isIdent(ce.Args[0], "value") {
-					break
+				ready := true
+				for _, c := range cand[fn].conds {
+					if c.kind == "call" && !emitted[c.name] {
+						ready = false
+					}
 				}
-				sel, ok := ce.Fun.(*ast.SelectorExpr)
-				if !ok || sel.Sel.Name != "MatchString" {
-					break
+				if ready {
+					emitted[fn] = true
+					hdefs = append(hdefs, cand[fn])
+					changed = true
 				}
-				id, ok := sel.X.(*ast.Ident)
-				if !ok || !regexVars[id.Name] {
-					break
-				}
-				rx = append(rx, id.Name)
-				st = st[1:]
 			}
-			if len(st) != 3 {
-				continue
-			}
-			a1, ok1 := st[0].(*ast.AssignStmt)
-			a2, ok2 := st[1].(*ast.AssignStmt)
-			r3, ok3 := st[2].(*ast.ReturnStmt)
-			if !ok1 || !ok2 || !ok3 || a1.Tok != token.DEFINE || a2.Tok != token.DEFINE || len(a1.Lhs) != 1 || len(a2.Lhs) != 1 || len(a1.Rhs) != 1 || len(a2.Rhs) != 1 || len(r3.Results) != 1 {
-				continue
-			}
-			if !isIdent(a1.Lhs[0], "values") || !isIdent(a2.Lhs[0], "splitVals") {
-				continue
-			}
-			cl, ok := a1.Rhs[0].(*ast.CompositeLit)
-			if !ok {
-				continue
-			}
-			at, ok := cl.Type.(*ast.ArrayType)
-			if !ok || at.Len != nil || !isIdent(at.Elt, "string") {
-				continue
-			}
-			var ws []string
-			good := true
-			for _, e := range cl.Elts {
-				w, ok := strLit(e)
-				good = good && ok
-				ws = append(ws, w)
-			}
-			c2, ok := a2.Rhs[0].(*ast.CallExpr)
-			if !good || !ok || !isIdent(c2.Fun, "splitValues") || len(c2.Args) != 1 || !isIdent(c2.Args[0], "value") {
-				continue
-			}
-			c3, ok := r3.Results[0].(*ast.CallExpr)
-			if !ok || !isIdent(c3.Fun, "in") || len(c3.Args) != 2 || !isIdent(c3.Args[0], "splitVals") || !isIdent(c3.Args[1], "values") {
-				continue
-			}
-			kwHandlers = append(kwHandlers, kwh{fd.Name.Name, rx, ws})
 		}
 	}
 
 	var b strings.Builder
 	b.WriteString("(* GENERATED by /verif/go/cmd/gen from /repo/css/handlers.go. Do not edit. *)\n")
-	b.WriteString("From Coq Require Import List NArith String.\nImport ListNotations.\nFrom BM Require Import Bytes Regex GenRegex.\nOpen Scope N_scope.\n\n")
+	b.WriteString("From Coq Require Import List NArith String.\nImport ListNotations.\nFrom BM Require Import Bytes Regex GenRegex KwHandler.\nOpen Scope N_scope.\n\n")
 	b.WriteString("(* defaultStyleHandlers: property -> handler function *)\nDefinition default_style_handlers : list (bytes * string) := [\n")
 	for i, e := range table {
 		sep := ";"
@@ -278,23 +397,32 @@ func genCss(files []*srcFile) {
 		}
 		fmt.Fprintf(&b, "  (\"%s\"%%string, %s)%s\n", l.where, coqBytesList(l.words), sep)
 	}
-	b.WriteString("].\n\n(* handlers whose whole body is  [if R.MatchString(value) { return true }]*  values := []string{..};\n   splitVals := splitValues(value); return in(splitVals, values)  with splitValues and in as modelled in Model/KwHandler.v\n   (gen compares the two helpers text for text): function, acceptor regexps, keywords *)\nDefinition css_kw_handlers : list (string * (list string * list bytes)) := [\n")
-	for i, h := range kwHandlers {
+	b.WriteString("].\n\n(* handlers whose whole body is a disjunction of conditions on the value (bindings  values := []string{..},\n   splitVals := splitValues(value) | strings.Split(value, \" \");  if COND { return true } ... return COND  with\n   COND ::= R.MatchString(value) | OtherHandler(value) | in(splitVals, values|colorValues)), in dependency order;\n   splitValues and in are as modelled in Model/KwHandler.v (gen compares the two helpers text for text) *)\nDefinition css_handler_defs : list (string * list hcond) := [\n")
+	for i, h := range hdefs {
 		sep := ";"
-		if i == len(kwHandlers)-1 {
+		if i == len(hdefs)-1 {
 			sep = ""
 		}
-		var rs []string
-		for _, r := range h.rx {
-			rs = append(rs, "\""+r+"\"%string")
+		var cs []string
+		for _, c := range h.conds {
+			switch c.kind {
+			case "rx":
+				cs = append(cs, "CRx \""+c.name+"\"%string")
+			case "call":
+				cs = append(cs, "CCall \""+c.name+"\"%string")
+			case "in":
+				cs = append(cs, "CIn "+coqBytesList(c.words))
+			case "insp":
+				cs = append(cs, "CInSpace "+coqBytesList(c.words))
+			}
 		}
-		fmt.Fprintf(&b, "  (\"%s\"%%string, ([%s], %s))%s\n", h.fn, strings.Join(rs, "; "), coqBytesList(h.words), sep)
+		fmt.Fprintf(&b, "  (\"%s\"%%string, [%s])%s\n", h.fn, strings.Join(cs, "; "), sep)
 	}
 	b.WriteString("].\n")
 	writeIfChanged("GenCss.v", b.String())
 	var kh strings.Builder
-	for _, h := range kwHandlers {
-		fmt.Fprintf(&kh, "%s\t%s\n", h.fn, strings.Join(h.rx, ","))
+	for _, h := range hdefs {
+		fmt.Fprintf(&kh, "%s\t%d\n", h.fn, len(h.conds))
 	}
 	writeIfChanged("css_kw_handlers.tsv", kh.String())
 
